@@ -28,7 +28,8 @@ typename boost::property_traits<WeightMap>::value_type approx_mcb_sva_signed(
         const Graph &g, const WeightMap &weight, std::size_t k,
         CycleOutputIterator out) {
 
-    typedef typename parmcb::detail::mcb_sva_signed<Graph,WeightMap,CycleOutputIterator> ExactAlgo;
+    typedef typename boost::graph_traits<Graph>::edge_descriptor Edge;
+    typedef typename parmcb::detail::mcb_sva_signed<Graph,WeightMap,std::back_insert_iterator<std::list<std::list<Edge>>>> ExactAlgo;
     parmcb::detail::BaseApproxSpannerAlgorithm<Graph, WeightMap, ExactAlgo, false> algo(g, weight, boost::get(boost::vertex_index, g), k);
     return algo.run(out);
 }
